@@ -476,9 +476,9 @@ pub fn wrapped_scalars() -> Vec<Value> {
 /// Widths beyond every small-size regime: 15 / 16-bit counts and typical allocation caps.
 pub fn width_classes(thorough: bool) -> Vec<usize> {
     if thorough {
-        vec![4096, 32767, 32768, 32769, 65535, 65536, 65537, 100_000, 262_145]
+        vec![1000, 1024, 4096, 4097, 10_000, 16384, 32767, 32768, 32769, 65535, 65536, 65537, 100_000, 262_145]
     } else {
-        vec![32769, 65537, 100_000]
+        vec![1000, 4097, 10_000, 32769, 65537, 100_000]
     }
 }
 
